@@ -5,6 +5,12 @@
 //            stmt list = <n> { :n | :c | :x <file> <line> | :j <file> <line> | :s | :o } ; pre/post = <n> { <line> }
 // Observation: <escaped> <ret|~> <nreps> { <nev> {test phase idx depth} <nfail> {test file line kind} <nafter> {depth ctx_ok}
 //              (~ | :s ok nfail|~ tests run checks ignored filtered) (~ | :k tests run checks fail filtered ignored) }
+#include "hlib.h"
+#include <map>
+#include <stdexcept>
+#include <unistd.h>
+#define private public
+#define protected public
 #include "CppUTest/TestHarness.h"
 #include "CppUTest/TestRegistry.h"
 #include "CppUTest/TestOutput.h"
@@ -13,11 +19,8 @@
 #include "CppUTest/CommandLineTestRunner.h"
 #include "CppUTest/TestHarness_c.h"
 #include "CppUTest/PlatformSpecificFunctions.h"
-#include "hlib.h"
-#include <map>
-#if CPPUTEST_HAVE_EXCEPTIONS
-#include <stdexcept>
-#endif
+#undef private
+#undef protected
 using namespace hl;
 
 extern int PlatformSpecificVerifJumpDepth();
@@ -39,7 +42,7 @@ static void logText(const char* s)
     Entry e; e.kind = 'T'; e.a = e.b = e.c = e.d = 0; e.text = s; gLog.push_back(e);
     if (e.text == "." || e.text == "!") {     // progress indicator = printCurrentTestEnded: the test that was started has ended
         Entry a; a.kind = 'A'; a.a = PlatformSpecificVerifJumpDepth();
-        a.b = (UtestShell::getCurrent() == gOutsideTest && UtestShell::getTestResult() == gOutsideResult) ? 1 : 0; a.c = a.d = 0;
+        a.b = (UtestShell::getCurrent() == gOutsideTest && UtestShell::getCurrent()->getTestResult() == gOutsideResult) ? 1 : 0; a.c = a.d = 0;
         gLog.push_back(a);
     }
 }
@@ -205,9 +208,9 @@ int main()
 #endif
         // a clean machine for every scenario (a previous scenario may have left drift behind on a broken library)
         while (PlatformSpecificVerifJumpDepth() > 0) PlatformSpecificRestoreJumpBuffer();
-        UtestShell::setCurrentTest(NULLPTR); UtestShell::setTestResult(NULLPTR);
+        UtestShell::currentTest_ = NULLPTR; UtestShell::testResult_ = NULLPTR;
         UtestShell::setRethrowExceptions(false); UtestShell::restoreDefaultTestTerminator();
-        gOutsideTest = UtestShell::getCurrent(); gOutsideResult = UtestShell::getTestResult();
+        gOutsideTest = UtestShell::getCurrent(); gOutsideResult = gOutsideTest->getTestResult();
         gLog.clear(); gDefOf.clear();
 
         TestRegistry reg; FailPlugin plugin; reg.installPlugin(&plugin);
@@ -268,5 +271,6 @@ int main()
         o.flush();
         for (int i = 0; i < nt; i++) delete shells[i];
     }
-    return 0;
+    fflush(stdout);
+    _exit(0);   // no static destructors: the leak detector's allocators may already be gone when the registry's statics die
 }
